@@ -39,6 +39,10 @@ const (
 	tmpSandbox  = "TMPDIR_same_mount"  // $TMPDIR inside the sandbox: renameio uses it
 	tmpForeign  = "TMPDIR_other_mount" // $TMPDIR on another file system: renameio falls back to the destination's directory
 	tmpExplicit = "explicit_TempDir"   // AtomicFileOptions.TempDir
+	// AtomicFileOptions.TempDir on another file system than the destination: the finished temporary file cannot be
+	// renamed into place. The operation may fail (it does) or get the content across some other atomic way; it must
+	// not write the destination in place.
+	tmpExplicitForeign = "explicit_TempDir_other_mount"
 )
 
 type caseDef struct {
@@ -360,14 +364,25 @@ func build(c caseDef) (*built, error) {
 		})
 		c.Tmp = tmpSandbox
 	}
+	if c.Tmp == tmpExplicitForeign && !foreignUsable {
+		foreignWarn.Do(func() {
+			stats.Warn("no second mount available below $VERIF_SCRATCH: the other-mount variants run on the same mount")
+		})
+		c.Tmp = tmpExplicit
+	}
+	foreignDir := ""
 	switch c.Tmp {
-	case tmpForeign:
+	case tmpForeign, tmpExplicitForeign:
 		f := filepath.Join(foreignRoot, fmt.Sprintf("tmp%06d", n))
 		if err := os.MkdirAll(f, 0o755); err != nil {
 			return nil, err
 		}
 		cleanups = append(cleanups, func() { _ = os.RemoveAll(f) })
-		d.TmpEnv = f
+		foreignDir = f
+		d.TmpEnv = sbTmp
+		if c.Tmp == tmpForeign {
+			d.TmpEnv = f
+		}
 	default:
 		d.TmpEnv = sbTmp
 	}
@@ -405,6 +420,10 @@ func build(c caseDef) (*built, error) {
 		}
 		if c.Tmp == tmpExplicit {
 			spec.TempDir = stage
+		}
+		if c.Tmp == tmpExplicitForeign {
+			spec.TempDir = foreignDir
+			spec.ErrorAllowed = true
 		}
 		tg := target{Path: dest, Kind: "file", NewData: newData, SingleFile: true}
 		if c.Op == shared.OpCreateAtomic && c.FailAfter >= 0 {
@@ -660,6 +679,15 @@ func runOne(c caseDef, k int, keepLog bool) (*runReport, error) {
 			fmt.Sprintf(format, args...), c.id(), where, tr.render(b.dirs.Sandbox), strings.TrimSpace(tr.Stderr))}
 	}
 
+	failedAsAllowed := false
+	if !tr.Killed && tr.End == "exit=4" && b.spec.ErrorAllowed {
+		// the operation reported a failure: it must have left every destination alone
+		failedAsAllowed = true
+		for i := range b.exp.Targets {
+			b.exp.Targets[i].Untouched = true
+		}
+		stats.Class("operation_failed_as_allowed")
+	}
 	outs, err := judge(b.exp, pre, post)
 	if err != nil {
 		return rep, fail("%s", strings.ReplaceAll(err.Error(), b.dirs.Sandbox, "<sb>"))
@@ -667,7 +695,7 @@ func runOne(c caseDef, k int, keepLog bool) (*runReport, error) {
 	rep.Outcomes = outs
 
 	if !tr.Killed {
-		if tr.End != "exit=0" {
+		if tr.End != "exit=0" && !failedAsAllowed {
 			return rep, fail("the operation did not behave as the case expects (%s)", tr.End)
 		}
 		for _, tg := range b.exp.Targets {
